@@ -472,6 +472,16 @@ static void fam_raw(void)
 			deliver(&A_ADDR, buf, LENS[k], "raw frame command nibble %d user nibble %d, %d bytes", cmd, u, LENS[k]); tick();
 		}
 	}
+	/* frames that stop before or inside the 4-byte header, each right after a complete frame with the same command / user byte from
+	 * the same address: what the longer one left in the receive buffer must not complete the shorter one (seeded C05-j: a 3-byte
+	 * frame taken for a raw DATA frame of -1 bytes) */
+	for (int cmd = 0; cmd < 16; cmd++) for (int u = 0; u < 16; u++) for (int len = 3; len >= 0; len--) {
+		memset(buf, 0x41 + cmd, 100);
+		buf[0] = 0x10; buf[1] = 0xd1; buf[2] = 0x9e; buf[3] = (cmd << 4) | u;
+		if (cmd == 2) { int n = tm_raw(buf, 0x20, u, (const uint8_t *)"\x78\xda\x03\x00\x00\x00\x00\x01", 8); deliver(u & 1 ? &A_ADDR : &X_ADDR, buf, n, "raw data frame (empty inner packet) user nibble %d", u); }
+		else deliver(u & 1 ? &A_ADDR : &X_ADDR, buf, 24, "raw frame command nibble %d user nibble %d, 24 bytes", cmd, u);
+		deliver(u & 1 ? &A_ADDR : &X_ADDR, buf, len, "the first %d bytes of the frame before (command nibble %d user nibble %d)", len, cmd, u); tick();
+	}
 	/* raw data of A (user nibble 1) relayed to other sessions: incompressible inner packets of many sizes */
 	{
 		static unsigned char ip[70000], z[70100];
